@@ -136,32 +136,95 @@ func RulePeerClassification(p *core.Program, r *core.Report, rule string) {
 	if s := p.Func(core.PkgK8s, "NetworkPolicy", "GetPolicyRulesSelectorsAndUpdateExposureClusterWideConns"); s == nil {
 		r.Lost(rule, "(*NetworkPolicy).GetPolicyRulesSelectorsAndUpdateExposureClusterWideConns")
 	} else {
-		sinfo := s.Pkg.TypesInfo
-		for _, d := range []struct{ scan, dir string }{{"scanIngressRules", "PolicyTypeIngress"}, {"scanEgressRules", "PolicyTypeEgress"}} {
-			var call *ast.CallExpr
+		// the scan of one direction is identified by what it does: it iterates over Spec.Ingress / Spec.Egress, here or in a
+		// helper of the package this function calls; every such site must sit under policyAffectsDirection(<that direction>)
+		for _, d := range []struct{ field, dir string }{{"Ingress", "PolicyTypeIngress"}, {"Egress", "PolicyTypeEgress"}} {
+			var sites []ast.Node
+			sites = append(sites, iteratesSpecRules(s.Pkg.TypesInfo, s.Decl.Body, d.field)...)
 			ast.Inspect(s.Decl.Body, func(n ast.Node) bool {
 				if c, ok := n.(*ast.CallExpr); ok {
-					if fn := core.Callee(sinfo, c); fn != nil && core.RefName(fn) == d.scan {
-						call = c
+					if fn := core.Callee(s.Pkg.TypesInfo, c); fn != nil && fn != s.Obj && helperIteratesSpecRules(p, fn, d.field, 0) {
+						sites = append(sites, c)
 					}
 				}
 				return true
 			})
-			ok := false
-			if call != nil {
-				fm, _, found := FactsAt(s, call, nil)
+			ok := len(sites) > 0
+			why := "no iteration over Spec." + d.field + " is reachable from the function"
+			for _, site := range sites {
+				fm, _, found := FactsAt(s, site, nil)
+				under := false
 				if found {
 					for _, a := range facts.Atoms(fm) {
 						if strings.Contains(a, "policyAffectsDirection(") && strings.Contains(a, d.dir) && facts.Entails(fm, facts.Atom(a)) {
-							ok = true
+							under = true
 						}
 					}
 				}
+				if !under {
+					ok = false
+					why = "the scan of Spec." + d.field + " at " + p.Pos(site.Pos()) + " does not run exactly under policyAffectsDirection(" + d.dir + ")"
+				}
 			}
-			r.Check(ok, rule, s.Key()+": "+d.scan+" runs when the policy affects that direction", p.Pos(s.Decl.Pos()), "called under policyAffectsDirection("+d.dir+")", d.scan+" is not called exactly under policyAffectsDirection("+d.dir+")")
+			r.Check(ok, rule, s.Key()+": the "+strings.ToLower(d.field)+" rules are scanned when the policy affects that direction", p.Pos(s.Decl.Pos()), "scanned under policyAffectsDirection("+d.dir+")", why)
 		}
 	}
 	r.Floor(rule, 4)
+}
+
+// iteratesSpecRules returns the places in body that iterate over the Ingress / Egress rules of a NetworkPolicySpec: the ranged
+// or indexed read of that field (a plain len() test is not a scan).
+func iteratesSpecRules(info *types.Info, body ast.Node, field string) []ast.Node {
+	var out []ast.Node
+	isRead := func(e ast.Expr) bool {
+		se, ok := ast.Unparen(e).(*ast.SelectorExpr)
+		if !ok || se.Sel.Name != field {
+			return false
+		}
+		t := info.TypeOf(se.X)
+		if t == nil {
+			return false
+		}
+		if pt, ok := t.Underlying().(*types.Pointer); ok {
+			t = pt.Elem()
+		}
+		n := core.NamedOf(t)
+		return n != nil && n.Obj().Name() == "NetworkPolicySpec"
+	}
+	ast.Inspect(body, func(n ast.Node) bool {
+		switch x := n.(type) {
+		case *ast.RangeStmt:
+			if isRead(x.X) {
+				out = append(out, ast.Unparen(x.X))
+			}
+		case *ast.IndexExpr:
+			if isRead(x.X) {
+				out = append(out, ast.Unparen(x.X))
+			}
+		}
+		return true
+	})
+	return out
+}
+
+func helperIteratesSpecRules(p *core.Program, fn *types.Func, field string, depth int) bool {
+	fd := p.ByObj[fn]
+	if fd == nil || fd.Decl.Body == nil || depth > 2 {
+		return false
+	}
+	if len(iteratesSpecRules(fd.Pkg.TypesInfo, fd.Decl.Body, field)) > 0 {
+		return true
+	}
+	found := false
+	ast.Inspect(fd.Decl.Body, func(n ast.Node) bool {
+		if c, ok := n.(*ast.CallExpr); ok && !found {
+			if g := core.Callee(fd.Pkg.TypesInfo, c); g != nil && g != fn && helperIteratesSpecRules(p, g, field, depth+1) {
+				found = true
+			}
+		}
+		return !found
+	})
+	return found
 }
 
 // RepresentativeKey is C07-b: the de-duplication key of representative peers
